@@ -1,17 +1,30 @@
 """C12 / C13, generic half: the primitive Writer/Reader of internal/messages (writer.go, reader.go)."""
 
+# the buf mode of harness/cmd/reflect reads unexported state of Writer/Reader: every component built from that directory needs the overlay
+_ACC = {"internal/messages/xv_buf_verif.go": "acc/messages/xv_buf_verif.go"}
+
 COMPONENTS = {
     "reflect": {
-        "coq_run_module": "Codec.ReflectRun",
+        "coq_run_module": "Codec.BufRun",
+        "run": "run_reflect_all",
+        "accessors": _ACC,
         "what": "messages.Writer/Reader: every WriteXxx/ReadXxx primitive, Write/Read type switch, writeReflect/readReflect, "
-                "WriteFrom/ReadInto on supported values (round trips) vs Codec/Reflect.v",
+                "WriteFrom/ReadInto on supported values (round trips) vs Codec/Reflect.v; "
+                "messages.Writer / messages.Reader as STATE MACHINES (buffer growth, byte order options, sticky error, Reset/Seek/Skip/Remaining, "
+                "the two sync.Pools, WriteMessage/SerializeRemotingMessage nesting through pooled scratch Writers at any depth, ReadMessage through "
+                "pooled Readers, scripted registered message writers/readers) vs Codec/Buf.v; actor.NewRef / utils.NormalizeAddress / NormalizePath / "
+                "strings.TrimSpace vs Codec/RefNorm.v (net.ParseIP as oracle)",
         "args": {"quick": ["-mode", "rt"], "thorough": ["-mode", "rt"]},
     },
     "reflect_total": {
-        "coq_run_module": "Codec.ReflectRun",
+        "coq_run_module": "Codec.BufRun",
         "cmd": "reflect",
-        "run": "run_reflect",
-        "what": "messages.Writer/Reader totality: every kind of value through Write; Read called with nil / non-pointer targets; "
+        "run": "run_reflect_all",
+        "accessors": _ACC,
+        "what": "the Writer/Reader state-machine scenarios of component reflect (half as many) with the monitors of C13 only (any panic, a Reader "
+                "position outside its buffer), the observed states (capacity after every write; position / sticky error / element counter after every "
+                "read, also after reads that failed half way) vs Codec/Buf.v; "
+                "messages.Writer/Reader totality: every kind of value through Write; Read called with nil / non-pointer targets; "
                 "truncated, corrupted, random and length-targeted input through Read in a child process under a 2 GiB "
                 "address-space limit and a per-case timeout vs Codec/Reflect.v",
         "args": {"quick": ["-mode", "total"], "thorough": ["-mode", "total"]},
@@ -30,12 +43,33 @@ PROPERTIES = {
                  "then seeded random types (depth<=3: slices incl. named, arrays, structs with unexported fields of ANY type) and values, "
                  "bytes compared with the model, decoded value (with random suffix, into a variable holding a random old value) compared "
                  "with the model and, on the implementation, with the value modulo nil-slice/unexported-field normalisation; "
-                 "WriteFrom/ReadInto lists of 0..4 values, full and truncated. non-trivial = not a bare basic value; distinct = distinct input terms"),
+                 "WriteFrom/ReadInto lists of 0..4 values, full and truncated. non-trivial = not a bare basic value; distinct = distinct input terms"
+                 " Then the state machines (Codec/Buf.v): one case = one scenario of 3..40 steps over up to 3 Writer and 3 Reader handles (NewWriter / NewReader with random options: byte order, "
+                 "caller-supplied buffer of tiny capacity, Reset flag, Mutable; or taken from the pools, which are emptied before every scenario) in a random "
+                 "interleaving of: the twelve WriteXxx, varints, WriteBytes, WriteBytesWithLength (sizes 1 2 4 and invalid ones, lengths around 255 / 65535), "
+                 "WriteShortString, Write / WriteFrom of random types and values (supported or not), Reset, WriteMessage of scripted registered messages "
+                 "(3 harness message types; body = random operations, nested up to depth 4, returning the sticky error / nil / an error / panicking) and of "
+                 "outside messages (no Codec / failing Codec / data), release and re-acquisition; readers over valid, truncated, corrupted data: every ReadXxx, "
+                 "varints, ReadBytes, ReadBytesWithLength, Read / ReadInto of random types, Skip, Seek (in and out of range), Reset, ReadMessage with scripted "
+                 "message readers and the three Codec variants; round-trip scenarios (writer operations incl. messages, then the inverse reader operations, in "
+                 "either byte order, on recycled pool objects); deterministic growth scenarios (chunks of 255/256/257/... bytes, caller buffers of capacity 0/1/3); "
+                 "after EVERY step the full observable state is compared with the model (Bytes, cap, order, Err, returned error / Pos, Error, Remaining, element "
+                 "counter, result); every comparison with a fresh object is itself a step of the scenario. Pool users pass ByteOrder options and "
+                 "release little-endian objects freely; a third of the round-trip scenarios Seek(0) and decode everything again up to three times; three fixed regression "
+                 "scenarios replay the witnesses of the repaired defects 62b310d / 4dbfc0b / ce2f8d5. Then the ActorRef factory: strings.TrimSpace on every ASCII / Unicode white space, look-alikes and malformed UTF-8 "
+                 "in every position, NormalizePath / NormalizeAddress / NewRef on 700 (x20) generated (address, path) pairs (40% valid; brackets, colons, signs and "
+                 "leading zeros in ports, labels of 62..64 characters, names around 253 bytes, KELVIN SIGN / LONG S, percent escapes), net.ParseIP answers for every "
+                 "substring passed as the oracle. non-trivial = a scenario with a registered message / ReadMessage; distinct = distinct input terms"),
         "modelled_not_verified": [
             "floats are their IEEE-754 bit patterns (the Go code only moves bits: math.Float32bits/Float32frombits)",
-            "byte order is the default big-endian (WriterOption.ByteOrder/ReaderOption.ByteOrder other than the default are not modelled)",
+            "byte orders: binary.BigEndian and binary.LittleEndian (PrimO.v / ReflectO.v / Buf.v); any other ByteOrder implementation a caller might pass is not modelled",
             "64-bit int; slices/strings of 2^32 or more elements (length prefix wraps) are covered by theorems only, never executed",
-            "Writer buffer growth (ensureCapacity), pooling (NewWriterFromPool/NewReaderFromPool), Reset/Seek/Skip/Remaining are not modelled",
+            "sync.Pool = a list of the objects that were Put plus an ORACLE naming the object each Get hands out (the theorems hold for every oracle; the run observes it by pointer identity); assumed of its users (true of vivid's callers, which defer the release): an object is not used after it was Put and not Put twice",
+            "slices are values: aliasing of Bytes() / Remaining() / a caller-supplied Buffer with the Writer's array is not modelled (Writer.Bytes is documented to alias; EncodeEnvelopWithRemoting copies before releasing)",
+            "append's own growth policy is never exercised: ensureCapacity always makes room first (theorem C13_ensure_capacity_room), so the capacity is determined by ensureCapacity alone",
+            "registered message writers / readers are SCRIPTS (lists of Writer / Reader operations, nested WriteMessage allowed, four ways of returning); a message reader that itself calls ReadMessage is covered by Codec/Msgs.v (functional, with fuel), not by the Reader machine (depth 1)",
+            "Skip(n) / ReadBytes(n) with negative n (caller-supplied, not wire data) are outside the Reader machine (ReadBytes(-1) panics: modelled in Prim2.rd_bytes_z)",
+            "ActorRef factory: net.ParseIP is an oracle (bytes -> bool); strings.TrimSpace's white-space set and the (?i) case folding of the domain regexp (U+212A, U+017F) are those of the Go 1.26 Unicode tables, transcribed by hand and compared on every run",
             "named struct/array/pointer types behave like their unnamed forms (only named basic types and named slices are distinguished, as in the type switch)",
         ],
     },
@@ -50,10 +84,12 @@ PROPERTIES = {
                  "into the same and into arbitrary types, dedicated length-bomb inputs, ReadInto on every truncation of a list encoding; each decode "
                  "into a variable holding a random old value. outcome (value+consumed | error class | panic) compared with the model; monitors: "
                  "panic, child death, timeout (15 s per case), decode slower than 200 ms + 50 us/byte (confirmed by the fastest of 3 re-runs), allocation > 64*|input|+64KiB+8*sizeof(type), target changed by a failed Read. "
-                 "non-trivial = all; distinct = distinct input terms"),
+                 "non-trivial = all; distinct = distinct input terms"
+                 " Then the state-machine scenarios of component reflect (see C12; 130 of each kind, x20 thorough), monitors: any panic, Reader position outside the buffer; "
+                 "the state after every step (in particular position, sticky error and element counter after reads that FAILED half way, capacity after every write) compared with the model"),
         "modelled_not_verified": [
             "allocation is modelled as bytes requested from the allocator by Read (MakeSlice/New/make), Go struct padding ignored; the runtime's out-of-memory behaviour itself is observed, not modelled",
-            "the Reader's element budget is per Reader lifetime (Reset clears it; Seek does not): modelled for one Reader over one buffer read front to back", "recursion depth = nesting depth of the type/value (finite by construction of goty/goval; a Go value cannot be cyclic through the kinds Write accepts except via pointers/interfaces to itself, which is not representable here and not generated)",
+            "the Reader's element budget is per decode pass (Reset and, since ce2f8d5, Seek clear it); Codec/Reflect.v models one Reader over one buffer read front to back, Codec/Buf.v the whole Reader state machine", "recursion depth = nesting depth of the type/value (finite by construction of goty/goval; a Go value cannot be cyclic through the kinds Write accepts except via pointers/interfaces to itself, which is not representable here and not generated)",
             "ReadBytes(n)/Skip(n) with a negative caller-supplied n panic (modelled, compared, not counted as a violation: n is not wire data)",
         ],
     },
@@ -66,7 +102,20 @@ META = {
                  "Read ty (Write v ++ rest) = (v modulo nil-slice->empty and unexported-field->zero, rest), by induction on the type; the same "
                  "for WriteFrom/ReadInto lists and for each primitive (fixed width, bool, float bits, varint/uvarint exactly as encoding/binary, "
                  "short strings, 1/2/4-byte length prefixes); each excluded value class is a theorem with a witness. Tied to the Go code by a "
-                 "byte-exact differential check on reflect-built values."),
+                 "byte-exact differential check on reflect-built values. "
+                 "State machines (Codec/Buf.v): the real Writer (capacity and growth, either byte order, sticky error, Reset, the sync.Pool with an oracle for "
+                 "what Get hands out, WriteMessage -> SerializeRemotingMessage -> pooled scratch Writer -> message writer -> WriteMessage at every depth with "
+                 "roll-back) is proved, by induction over the nesting, to compute the functional encoder on what the Writer held, for every clean pool and every "
+                 "oracle (no leak of earlier content, error cleared by Reset, nested length prefixes at every depth); writer operations -> bytes -> inverse reader "
+                 "operations return the values and end exactly at the end of the writer's bytes for ANY (pooled / reset / grown) Writer and Reader of either order, "
+                 "also through WriteMessage / ReadMessage; in EVERY scenario (many handles, any interleaving, any byte order options, any pool behaviour) each handle "
+                 "depends on its own history only: a Writer / Reader obtained from a pool without a ByteOrder option is big-endian whatever the pool's history, and after "
+                 "Seek(p) a Reader is a new Reader positioned at p (re-decoding any number of times succeeds). Write/Read of every supported type round-trips in BOTH byte orders; the big-endian "
+                 "instance of the order-parametric functions is proved equal to the model above. The ActorRef factory (NewRef = NormalizeAddress + NormalizePath "
+                 "+ TrimSpace, net.ParseIP as the only oracle) is modelled at string level and proved idempotent, which discharges the hypothesis on the "
+                 "uninterpreted factory in the OnKill / OnKilled round trips. Two defects found by this model (pooled objects kept the byte order of their previous "
+                 "user; Seek did not restore the element budget) were repaired in /repo (62b310d, 4dbfc0b, ce2f8d5); the model follows the repaired code, the former "
+                 "refuted theorems are now the positive ones and the witnesses are regression scenarios."),
         "design_ref": "DESIGN.md §4 C12, Appendix C",
         "note": "Trusted: Coq kernel + vm_compute; ExtrOcamlBasic extraction (cross-checked by vm_compute on a sample each run); the harness (reflect.StructOf/SliceOf/ArrayOf value builder, unsafe access to unexported fields and float bits).",
         "technique": "Coq proof (induction on the type universe) over a hand-written model + differential correspondence check against the Go code",
@@ -78,7 +127,11 @@ META = {
                  "and every Reader state is Ok or Err, the loop fuel |input|+1 is never exhausted, the result is a suffix of the input; Read with a "
                  "nil/non-pointer target is an error; for EVERY type and input, bytes allocated + iterations <= 2*kA(type)*|input| + kK(type) "
                  "(potential = remaining bytes + remaining element budget), hostile length prefixes are rejected before allocating; a failed Read "
-                 "leaves its variable unchanged; ReadInto assigns exactly the variables before the failing one."),
+                 "leaves its variable unchanged; ReadInto assigns exactly the variables before the failing one. "
+                 "State machines (Codec/Buf.v, ReflectO.v): in both byte orders the generic reader's outcome is Ok or Err and its consumption meter never exceeds "
+                 "the remaining input, also on the failure path, so every Reader operation (Skip, Seek, Reset, ReadMessage through the pool included) keeps "
+                 "0 <= Pos() <= len(buf); the sticky error is characterised exactly (which operations ignore it); the Writer's append never reallocates behind "
+                 "ensureCapacity and its capacity is at most max(before, 2 * length after) per operation, nested messages included."),
         "design_ref": "DESIGN.md §4 C13, Appendix C",
         "note": "Hostile inputs run in a child process under RLIMIT_AS; child death / timeout / disproportionate allocation are implementation-side monitor hits naming the input.",
         "technique": "Coq proof (induction; explicit fuel with exhaustion excluded by theorem; cost meter) + differential check + resource monitors in a sandboxed child process",
